@@ -98,7 +98,7 @@ int PolynomEntry::SetCoefficient(const char *scale, int index)
     r = gd_alter_entry(D->D, E.field, &E, 0);
 
     if (!r) {
-      r = gd_get_constant(D->D, scale, GD_COMPLEX128, E.u.polynom.ca + index);
+      r = gd_cxx_get_scalar(D->D, scale, GD_COMPLEX128, E.u.polynom.ca + index);
       E.u.polynom.a[index] = E.u.polynom.ca[index][0];
     }
   }
